@@ -1,0 +1,47 @@
+//go:build verif
+
+// Contracts checked by /verif/gowp. This file contains comments only and is compiled only
+// with -tags verif.
+
+package composition
+
+// C12: revision numbers only grow, and the revision holding the composition's current
+// content ends up with a number at least as high as every other revision of the composition
+// (controlled by it, or orphaned and about to be re-adopted). A new revision is created only
+// when no listed revision carries the current content hash, with the next number.
+
+//@ macro OURS(r) = metav1.GetControllerOf(r) == nil || metav1.GetControllerOf(r).UID == comp.GetUID()
+
+//@ func (*composition.Reconciler).Reconcile
+//@ props C12
+//@ ghost created bool = false
+//@ site v1.IsControlledBy($r, _) as iteration-start
+//@   assert [C12:listed-revision-bounded] $r == &rl.Items[i] && (OURS($r) ==> as($r, *v1.CompositionRevision).Spec.Revision <= latestRev + 1)
+//@   bind $before = as($r, *v1.CompositionRevision).Spec.Revision
+//@ loop range rl.Items
+//@   invariant [C12:orphans-counted-so-far] forall j :: 0 <= j && j < done && metav1.GetControllerOf(&rl.Items[j]) == nil ==> rl.Items[j].Spec.Revision <= latestRev
+//@   invariant [C12:controlled-still-bounded] forall j :: 0 <= j && j < len(rl.Items) && metav1.GetControllerOf(&rl.Items[j]) != nil && metav1.GetControllerOf(&rl.Items[j]).UID == comp.GetUID() ==> rl.Items[j].Spec.Revision <= latestRev
+//@ loop range rl.Items #1
+//@   witness n = len(rl.Items)
+//@   witness latest = latestRev
+//@   witness rev[j<6] = rl.Items[j].Spec.Revision
+//@   witness controlled[j<6] = metav1.GetControllerOf(&rl.Items[j]) != nil && metav1.GetControllerOf(&rl.Items[j]).UID == comp.GetUID()
+//@   witness orphan[j<6] = metav1.GetControllerOf(&rl.Items[j]) == nil
+//@   invariant [C12:latest-bounds-our-revisions] forall j :: 0 <= j && j < len(rl.Items) && OURS(&rl.Items[j]) ==> rl.Items[j].Spec.Revision <= latestRev + 1
+//@ site (client.Writer).Update(_, _, $o)
+//@   witness n = len(rl.Items)
+//@   witness i = i
+//@   witness latest = latestRev
+//@   witness rev[j<6] = rl.Items[j].Spec.Revision
+//@   witness controlled[j<6] = metav1.GetControllerOf(&rl.Items[j]) != nil && metav1.GetControllerOf(&rl.Items[j]).UID == comp.GetUID()
+//@   witness orphan[j<6] = metav1.GetControllerOf(&rl.Items[j]) == nil
+//@   witness newrev = as($o, *v1.CompositionRevision).Spec.Revision
+//@   witness before = $before
+//@   assert [C12:updates-listed-revision] $o == &rl.Items[i]
+//@   assert [C12:numbers-never-shrink] as($o, *v1.CompositionRevision).Spec.Revision >= $before
+//@   assert [C12:renumbered-revision-is-highest] as($o, *v1.CompositionRevision).Spec.Revision != $before ==>
+//@        forall j :: 0 <= j && j < len(rl.Items) && OURS(&rl.Items[j]) ==> rl.Items[j].Spec.Revision <= as($o, *v1.CompositionRevision).Spec.Revision
+//@ site (client.Writer).Create(_, _, $o)
+//@   assert [C12:create-only-when-content-is-new] !(existingRev > 0) && !created
+//@   assert [C12:new-revision-is-highest] forall j :: 0 <= j && j < len(rl.Items) && OURS(&rl.Items[j]) ==> rl.Items[j].Spec.Revision <= as($o, *v1.CompositionRevision).Spec.Revision
+//@   update created = true
